@@ -28,6 +28,7 @@ RULE = (
     "non-trivial = near-miss path, stamp on a window edge, or a move."
     ' Additionally a file of a sub-second cadence with window edges off the millisecond grid, naive datetimes, ignore_regexes for names that can never match, synthetic events; and three LIVE scenarios with the real DirWatcher threads (tree present at start and growing, root arriving complete after the start, root deleted and replaced) judged with the sentinel protocol of vlib/live.py.'
 )
+RULE += ' Since rounds 7-8: the metadata channel nested inside its RF channel, windows between milliseconds.'
 ASSUMPTIONS = ["fixed parts in lower case and files at the format's depth (the property's grammar)",
                "events are fed to DigitalRFEventHandler.dispatch directly; no observer thread is started"]
 FLOORS = {}
